@@ -523,11 +523,16 @@ def others_untouched(s, field):
     return untouched_terms(sub, snap, "frame:other-fields")
 
 
+# the setters are inherited by every class: generic Dataset with ndim 0..5 and each subclass at its own ndim
+SETTER_CFGS = [("Dataset", d) for d in range(0, 6)] + list(FIXED.items())
+
+
 def cal_setter(prop, field, kinds):
     def setup(ctx):
-        d = pick(ctx, "d", range(0, 6))
+        clsname, d = pick(ctx, "cfg", SETTER_CFGS)
         kind = pick(ctx, "kind", kinds)
-        return NS(self=mk_ds(ctx, "Dataset", d), value=ndinfo_value(ctx, kind, "value"), case=f"ndim={d},{kind}")
+        # values are arbitrary reals / integers: NEGATIVE and zero calibration values are in the domain (a reversed axis has negative sampling)
+        return NS(self=mk_ds(ctx, clsname, d), value=ndinfo_value(ctx, kind, "value"), case=f"{clsname},ndim={d},{kind}")
 
     def ndim_of(s):
         return s.self.fields["_array"].ndim
@@ -536,7 +541,7 @@ def cal_setter(prop, field, kinds):
         x = s.self.fields.get(field)
         out = [(f"{prop}:is-1d-ndarray-of-length-ndim", B(isinstance(x, SymArr) and not x.pylist and x.ndim == 1 and V._dim_lit(x.shape[0]) == ndim_of(s)))]
         if z3.is_true(out[0][1]):
-            out.append((f"{prop}:values", vec_eq(x, ndinfo_spec(s.value, ndim_of(s)))))
+            out.append((f"{prop}:values-stored-exactly-as-given (sign included)", vec_eq(x, ndinfo_spec(s.value, ndim_of(s)))))
             out.append((f"frame:{prop}-is-a-new-array", B(is_fresh(x, s.old) and not (isinstance(s.value, SymArr) and x.base is s.value.base))))
         out += others_untouched(s, field)
         if isinstance(s.value, SymArr):
@@ -559,9 +564,17 @@ C_SET_SAMPLING = cal_setter("sampling", "_sampling", NDINFO_KINDS)
 
 
 def us_setup(ctx):
-    d = pick(ctx, "d", range(0, 6))
-    kind = pick(ctx, "kind", ("str", "list"))
-    return NS(self=mk_ds(ctx, "Dataset", d), value=units_value(ctx, kind, "value"), case=f"ndim={d},{kind}")
+    clsname, d = pick(ctx, "cfg", SETTER_CFGS)
+    # a single string, or a list / tuple of (symbolic) strings whose LENGTH is enumerated around ndim: empty, too short, exact, too long
+    lens = sorted({0, max(d - 1, 0), d, d + 1, d + 2})
+    kind = pick(ctx, "kind", ["str"] + [f"list[{n}]" for n in lens] + [f"tuple[{d}]", f"tuple[{d + 1}]"])
+    if kind == "str":
+        value = ctx.fresh("value", "str")
+    else:
+        n = int(kind[kind.index("[") + 1:-1])
+        value = [ctx.fresh(f"value{i}", "str") for i in range(n)]
+        value = tuple(value) if kind.startswith("tuple") else value
+    return NS(self=mk_ds(ctx, clsname, d), value=value, case=f"{clsname},ndim={d},{kind}")
 
 
 def us_ensures(s):
@@ -585,9 +598,9 @@ C_SET_UNITS = C(f"{DS}:Dataset.units.fset", label="Dataset.units.setter", setup=
 
 
 def as_setup(ctx):
-    d = pick(ctx, "d", range(1, 6))
+    clsname, d = pick(ctx, "cfg", [c for c in SETTER_CFGS if c[1] >= 1])
     e = pick(ctx, "e", range(0, 6))
-    return NS(self=mk_ds(ctx, "Dataset", d), value=fresh_nd(ctx, "value", e), case=f"ndim={d},value.ndim={e}")
+    return NS(self=mk_ds(ctx, clsname, d), value=fresh_nd(ctx, "value", e), case=f"{clsname},ndim={d},value.ndim={e}")
 
 
 def as_ensures(s):
@@ -1054,7 +1067,7 @@ def op_ensures_for(calibration_kept):
 
 def unchanged_after_raise(s, E):
     """a call that raises leaves the object exactly as it was (so Inv survives failing operations in a history)"""
-    return tagged(untouched_terms(s.self, s.old, "unchanged"), getattr(s, "case", "call"))
+    return tagged(untouched_terms(s.self, s.old, "unchanged") + inv_terms(s.self, "unchanged:Inv(self)-still-holds"), getattr(s, "case", "call"))
 
 
 def per_config(func, name, setup_for, raises, calibration_kept, max_paths=20000, configs=CONFIGS):
@@ -2029,9 +2042,102 @@ def gi_concretize_for(cfg, ks, alphabets, reduced, edge):
     return conc
 
 
+SETTER_KINDS = {"origin": ("negative-scalar", "zero", "mixed-sign-list", "negative-ndarray", "int-tuple", "too-long", "too-short", "empty"),
+                "sampling": ("negative-scalar", "zero", "mixed-sign-list", "negative-ndarray", "int-tuple", "too-long", "too-short", "empty"),
+                "units": ("str", "list", "tuple", "too-long", "too-short", "empty")}
+
+
+def rt_setters(inp):
+    """origin / sampling / units setters on the real classes: an accepted value is stored EXACTLY (sign and zeros included, one entry per axis);
+    a rejected value raises ValueError/TypeError and leaves the object bit-identical (Inv still holds); the same through from_array"""
+    import warnings
+
+    warnings.simplefilter("ignore")
+    clsname, nd_, attr, kind = inp["cls"], inp["ndim"], inp["attr"], inp["kind"]
+    ds = _mk_real(clsname, tuple(_shape(nd_)), 0) if nd_ else _real_cls(clsname).from_array(np.array(1.0))
+    vals = [(-1.5 - i) if i % 2 == 0 else (2.25 + i) for i in range(nd_)]
+    if attr == "units":
+        value = {"str": "nm", "list": [f"v{i}" for i in range(nd_)], "tuple": tuple(f"w{i}" for i in range(nd_)), "too-long": ["x"] * (nd_ + 1),
+                 "too-short": ["x"] * (nd_ - 1) if nd_ else None, "empty": [] if nd_ else None}[kind]
+        want = None if kind in ("too-long", "too-short", "empty") else ([value] * nd_ if isinstance(value, str) else list(value))
+    else:
+        value = {"negative-scalar": -2.5, "zero": 0.0, "mixed-sign-list": vals, "negative-ndarray": -np.abs(np.array(vals, dtype=float)) - 0.5,
+                 "int-tuple": tuple(-(i + 1) for i in range(nd_)), "too-long": [-1.0] * (nd_ + 1), "too-short": [-1.0] * (nd_ - 1) if nd_ else None,
+                 "empty": [] if nd_ else None}[kind]
+        want = None if kind in ("too-long", "too-short", "empty") else (np.full(nd_, value, dtype=float) if np.isscalar(value) else np.asarray(value, dtype=float))
+    if value is None:
+        return dict(violated=False, observed="n/a", expected="")
+    problems = []
+    before = _digest(ds)
+    try:
+        setattr(ds, attr, value)
+        raised = None
+    except (ValueError, TypeError) as e:
+        raised = e
+    if want is None:
+        if raised is None:
+            problems.append(f"ds.{attr} = <{kind}> accepted on a {nd_}-d {clsname}")
+        if _digest(ds) != before:
+            problems.append(f"rejected ds.{attr} = <{kind}> left a modified object: {attr} is now {getattr(ds, attr)!r}")
+    else:
+        if raised is not None:
+            problems.append(f"ds.{attr} = <{kind}> raised {type(raised).__name__}: {raised}")
+        else:
+            got = getattr(ds, attr)
+            same = (list(got) == want) if attr == "units" else (np.shape(got) == np.shape(want) and np.array_equal(np.asarray(got, dtype=float), want))
+            if not same:
+                problems.append(f"ds.{attr} = {value!r} stored {got!r} (expected exactly {want!r})")
+            d2 = list(_digest(ds))
+            b2 = list(before)
+            idx = {"origin": 4, "sampling": 5, "units": 6}[attr]
+            d2[idx] = b2[idx] = None
+            if d2 != b2:
+                problems.append(f"ds.{attr} setter changed another part of the object")
+    problems += [f"after ds.{attr} = <{kind}>: {p}" for p in _inv_problems(ds)]
+    # the same value through the constructor
+    if attr != "units" and want is not None and nd_:
+        try:
+            d3 = _real_cls(clsname).from_array(np.zeros(_shape(nd_)), **{attr: value})
+            if not np.array_equal(np.asarray(getattr(d3, attr), dtype=float), want):
+                problems.append(f"{clsname}.from_array({attr}={value!r}) stored {getattr(d3, attr)!r}")
+        except (ValueError, TypeError) as e:
+            problems.append(f"{clsname}.from_array({attr}=<{kind}>) raised {type(e).__name__}")
+    return dict(violated=bool(problems), observed="; ".join(problems[:4]) or "ok",
+                expected="accepted calibration is stored exactly as given (negative / zero values keep their sign); a rejected assignment changes nothing")
+
+
+def fam_setters(tier="quick", seed=0):
+    for clsname, d in SETTER_CFGS:
+        for attr, kinds in SETTER_KINDS.items():
+            for kind in kinds:
+                yield dict(cls=clsname, ndim=d, attr=attr, kind=kind)
+
+
+def safe_rt(rt):
+    """an oracle never crashes: an unexpected exception from the REAL code is a failure it reports"""
+    def run(inp):
+        try:
+            return rt(inp)
+        except Exception as e:  # noqa: BLE001
+            import traceback
+
+            where = traceback.extract_tb(e.__traceback__)[-1]
+            return dict(violated=True, observed=f"unexpected {type(e).__name__}: {e} (at {where.filename.rsplit('/', 1)[-1]}:{where.lineno} {where.name})",
+                        expected="the operations of a history either succeed or raise ValueError/TypeError/IndexError from the call itself and leave every object coherent")
+    run.__name__ = rt.__name__
+    run.__doc__ = rt.__doc__
+    return run
+
+
+rt_history, rt_validators, rt_numpy_model, rt_setters = safe_rt(rt_history), safe_rt(rt_validators), safe_rt(rt_numpy_model), safe_rt(rt_setters)
+
+
 def _attach():
     for c in VALIDATORS + SETTER_CONTRACTS + INIT_CONTRACTS + FA_CONTRACTS:
         c.rt, c.rt_family = rt_validators, fam_validators
+    for c, a in ((C_SET_ORIGIN, "origin"), (C_SET_SAMPLING, "sampling"), (C_SET_UNITS, "units")):
+        c.rt = rt_setters
+        c.rt_family = (lambda tier="quick", seed=0, _a=a: (x for x in fam_setters(tier, seed) if x["attr"] == _a))
     for c in (C_SET_ARRAY, C_SET_NAME, C_SET_SU, C_COPY, C_COPY4, C_CCA, C_CCA4):
         c.rt, c.rt_family = rt_history, fam_ops
     for c in OPS:
@@ -2080,6 +2186,8 @@ BOUNDED = [
     Bounded.from_rt("operation histories (replay of the contracts on the real classes)", rt_history, fam_histories,
                     "all histories of depth <=2 over a 14-op alphabet for every (class, ndim) configuration, depth 3 for ndim<=2 (thorough: all), 6 (60) random histories of depth 12 incl. failing operations"),
     Bounded.from_rt("single operations, both variants, argument errors", rt_history, fam_ops, "every op of the alphabet + 12 invalid calls, every (class, ndim) configuration"),
+    Bounded.from_rt("property setters on the real classes: exact values incl. sign, atomic rejection", rt_setters, fam_setters,
+                    "every class at its ndim (generic: ndim 0..5) x origin / sampling / units x negative, zero, mixed-sign, integer, wrong-length and empty values; setter and from_array"),
     Bounded.from_rt("conformance of the trusted numpy indexing model with numpy", rt_numpy_model, fam_model,
                     "every 6th (thorough: every) index form of the family above: result shape, sampled elements, source axis of every result axis, view vs copy"),
     Bounded.from_rt("validators / constructors on array-likes", rt_validators, fam_validators,
